@@ -110,6 +110,8 @@ fn drive(cfgv: &Value, wc: WorldCfg, out: &mut impl Write) {
     let w_ttl = num(cfgv, "w_ttl", 1);
     let nvals = num(cfgv, "nvals", 0); // 0: fresh value per write; else values v1..vN
     let mut rng = StdRng::seed_from_u64(seed);
+    // optional dump of every produced datagram (hex, one per line) for the wire-format check
+    let mut hex_out = cfgv.get("hex_out").and_then(|x| x.as_str()).map(|p| std::io::BufWriter::new(std::fs::File::create(p).expect("hex_out")));
     // optional prefixes (amplification of a divergent behaviour): each trace first replays one
     let prefixes: Vec<Vec<Value>> = match cfgv.get("prefix_file").and_then(|x| x.as_str()) {
         Some(p) => serde_json::from_str(&std::fs::read_to_string(p).expect("prefix file")).expect("prefix json"),
@@ -272,6 +274,10 @@ fn drive(cfgv: &Value, wc: WorldCfg, out: &mut impl Write) {
             steps.push(st);
             run.step(&steps, i);
             if run.made[i].is_some() { inflight.push(i); }
+            if let (Some(h), Some(m)) = (hex_out.as_mut(), run.made[i].as_ref()) {
+                let hx: String = m.bytes.iter().map(|b| format!("{b:02x}")).collect();
+                writeln!(h, "{hx}").unwrap();
+            }
             let mut ev = strip_nulls(&run.events[i]);
             ev["i"] = json!(i);
             let a = ev["a"].as_str().unwrap_or("");
